@@ -963,6 +963,10 @@ class state_machine_base : public FrontEnd
         m_running = true;
         m_event_processing = true;
 
+        // Events left over from a previous activation are dropped
+        // (unless the history policy keeps them) before the entry action runs.
+        m_history.reset_event_pool(self(), event);
+
         // Call on_entry on this SM first.
         static_cast<front_end_t*>(this)->on_entry(event, fsm);
     }
